@@ -464,6 +464,19 @@ def rule_g(ctx):
     # column_padding is derived from the (stretched) last border line
     pad = b.calls(lambda cd, t: ends(cd, "BorderHoriz::<T>::to_vertical_lines_above"))
     ctx.check(len(pad) == 1, "C05-G", "padding-rows-from-bottom-border", b.span, b.id, "")
+    # whenever a nested table's bottom rule is popped its bars are carried on as the column's padding: the two happen
+    # under exactly the same conditions
+    pops = [(bb, t) for bb, t in b.calls(lambda cd, t: callee_method(t) == "pop")]
+    if len(pad) == 1 and pops:
+        pbb = pad[0][0]
+        near = [bb for bb, t in pops if b.dominates(pbb, bb) or b.dominates(bb, pbb)]
+        # the store of the padding
+        stores = [x for x in b.reachable() for st in b.stmts(x) if st["k"] == "assign" and st["lhs"]["p"] and
+                  ("agg", "std::option::Option", "Some") in b.atoms(st["rv"].get("use") or {"l": 0, "p": []}) and
+                  has_call(b.atoms(st["rv"].get("use") or {"l": 0, "p": []}), "BorderHoriz::<T>::to_vertical_lines_above")] if False else []
+        okc = bool(near) and all(b.cdeps_transitive(bb) == b.cdeps_transitive(pbb) for bb in near)
+        ctx.check(okc, "C05-G", "bottom-rule-popped-iff-padding-recorded", pad[0][1]["span"], b.id,
+                  "the nested bottom rule is removed under other conditions than the ones under which its bars are kept as padding")
 
 
 def rule_j(ctx):
